@@ -176,4 +176,36 @@ theorem C05_source_skeletons_2 :
     Gen.Skel.DB_syncWALToLTX = Expected.Skel.DB_syncWALToLTX :=
   ⟨rfl, rfl, rfl, rfl⟩
 
+set_option maxRecDepth 20000 in
+/-- A commit publishes a finished, synced and (under a halt lock) acknowledged transaction file
+    before anything that depends on it — facts proved by `decide` about the skeletons of
+    `CommitJournal` and `CommitWAL` regenerated from db.go: the encoder is closed and the file
+    synced before the remote commit, the remote commit comes before the one `Rename` that
+    publishes the file, and the position is set (once) only after that; in journal mode the
+    database file is synced after the rename and the journal is invalidated after that sync and
+    before the position is set; in WAL mode the WAL file is synced before the transaction file is
+    created and the WAL bookkeeping moves only after the rename. -/
+theorem C05_commit_publishes_a_synced_file :
+    let ix (sk : List (String × String)) (x : String × String) (d : Nat) := (sk.findIdx? (· == x)).getD d
+    let j := Gen.Skel.DB_CommitJournal
+    let w := Gen.Skel.DB_CommitWAL
+    ix j ("call", "enc.Close") 1000 < ix j ("call", "ltxFile.Sync") 0 ∧
+    ix j ("call", "ltxFile.Sync") 1000 < ix j ("call", "db.store.Client.Commit") 0 ∧
+    ix j ("call", "db.store.Client.Commit") 1000 < ix j ("call", "db.os.Rename") 0 ∧
+    ix j ("call", "db.os.Rename") 1000 < ix j ("call", "dbFile.Sync") 0 ∧
+    (j.drop (ix j ("call", "dbFile.Sync") 1000)).contains ("call", "db.invalidateJournal") = true ∧
+    ((j.drop (ix j ("call", "dbFile.Sync") 1000)).dropWhile (· != ("call", "db.invalidateJournal"))).contains ("call", "db.setPos") = true ∧
+    ix j ("call", "dbFile.Sync") 1000 < ix j ("call", "db.setPos") 0 ∧
+    (j.filter (· == ("call", "db.os.Rename"))).length = 1 ∧
+    (j.filter (· == ("call", "db.setPos"))).length = 1 ∧
+    ix w ("call", "walFile.Sync") 1000 < ix w ("call", "db.os.Create") 0 ∧
+    ix w ("call", "enc.Close") 1000 < ix w ("call", "ltxFile.Sync") 0 ∧
+    ix w ("call", "ltxFile.Sync") 1000 < ix w ("call", "db.store.Client.Commit") 0 ∧
+    ix w ("call", "db.store.Client.Commit") 1000 < ix w ("call", "db.os.Rename") 0 ∧
+    ix w ("call", "db.os.Rename") 1000 < ix w ("set", "db.wal.offset = endOffset") 0 ∧
+    ix w ("set", "db.wal.offset = endOffset") 1000 < ix w ("call", "db.setPos") 0 ∧
+    (w.filter (· == ("call", "db.os.Rename"))).length = 1 ∧
+    (w.filter (· == ("call", "db.setPos"))).length = 1 := by
+  decide
+
 end LiteFSVerif.C05
